@@ -358,7 +358,12 @@ func mergedErrTest(b *ssa.BasicBlock) bool {
 // value: the SSA value whose range is specified (len(seed) as a call, a parameter …); lo/hi: inclusive bounds (hi < 0:
 // none).
 func refusalsOutside(p *Program, r *Report, rule string, fn *ssa.Function, isValue func(v ssa.Value) bool, lin func(lc *LinCtx) (Lin, bool), lo, hi int64, what string) int {
-	rej := rejectingBlocks(fn)
+	return refusalsOutsideRej(p, r, rule, fn, rejectingBlocks(fn), isValue, lin, lo, hi, what)
+}
+
+// refusalsOutsideRej: the same with the refusing blocks given by the caller (a fluent builder refuses by storing an error
+// in itself, not by returning one).
+func refusalsOutsideRej(p *Program, r *Report, rule string, fn *ssa.Function, rej map[*ssa.BasicBlock]bool, isValue func(v ssa.Value) bool, lin func(lc *LinCtx) (Lin, bool), lo, hi int64, what string) int {
 	lc := NewLinCtx(p, fn)
 	val, okV := lin(lc)
 	if !okV {
